@@ -12,11 +12,11 @@ PROP = dict(
         "SystemFee + NetworkFee < 2^64 per transaction, balances < 2^255; int64 sums of network fees do not overflow",
         "the Feer's answers (balances, fee per byte) change only when RemoveStale runs (Blockchain.storeBlock calls it under the chain lock)",
         "a Notary-sent transaction has at least two signers (NotaryAssisted rules of verifyAndPoolTx)",
-        "operations are sequential (the pool's mutex); blockStamp/resend, the data payload, events and metrics are not modelled",
+        "operations are sequential (the pool's mutex); the data payload, events and metrics are not modelled; blockStamp is a table beside the pool",
     ],
     modelled="mempool.Pool (Add, Remove, RemoveStale, Verify, HasConflicts) modelled by hand and proved; the Go code is tied to the model by differential evaluation of operation sequences through the public getters only (fees/conflicts/oracleResp tables are observed indirectly through Verify, HasConflicts and later Adds)",
 )
 META = dict(
-    text="Proved in Coq for all operation sequences (induction over the sequence) on a mechanism-level model of mempool.Pool with the repairs F4/F5: the invariant (no duplicates, slice/map bijection, length <= capacity, priority order, per-payer fee sum = sum of pooled fees <= balance incl. notary depositors, exact Conflicts reverse index, no two pooled transactions in conflict, exact oracle index hence at most one response per request) is reachable-closed; no nil dereference is reachable; a successful Add removes only conflicting transactions, the replaced oracle response and the strictly lower last entry of a full pool; a failed Add leaves the state unchanged up to a cached balance, and states equal in that sense answer every later operation identically (congruence proved). The unrepaired code is refuted in Coq by two witnesses (F4, F5), which the correspondence check rediscovers on the implementation. The Go code is tied to the model by random operation sequences compared after every step through the public API, and the invariant is evaluated directly on what the getters return.",
+    text="Proved in Coq for all operation sequences (induction over the sequence) on a mechanism-level model of mempool.Pool with the repairs F4/F5: the invariant (no duplicates, slice/map bijection, length <= capacity, priority order, per-payer fee sum = sum of pooled fees <= balance incl. notary depositors, exact Conflicts reverse index, no two pooled transactions in conflict, exact oracle index hence at most one response per request) is reachable-closed; no nil dereference is reachable; a successful Add removes only conflicting transactions, the replaced oracle response and the strictly lower last entry of a full pool; a failed Add leaves the state unchanged up to a cached balance, and states equal in that sense answer every later operation identically (congruence proved); RemoveStale's resend decision (SetResendThreshold) changes nothing in the pool and hands exactly the due kept items to the callback. The unrepaired code is refuted in Coq by two witnesses (F4, F5), which the correspondence check rediscovers on the implementation. The Go code is tied to the model by random operation sequences compared after every step through the public API, and the invariant is evaluated directly on what the getters return.",
     note="Trusted: Coq kernel and vm_compute, the hand-written model and its tie by differential testing through public getters only, the Go harness with its stub Feer, the orchestration script. Assumed: collision/pre-image resistance of hashes (abstract ids, no mutual Conflicts), fee and balance magnitudes far from the integer limits, Feer answers constant between RemoveStale calls, sequential use (locking not modelled).",
 )
